@@ -52,7 +52,17 @@ def mk_trace(module, qualname, payload=0, bad=False):
     from monkeytype.tracing import CallTrace
 
     if bad:
-        return CallTrace(fn(module, qualname), {"x": BadType()}, None, None)
+        # unserialisable at the top level, or inside a generic (the encoder fails half-way through the type), in any position
+        import typing
+
+        kinds = [lambda: {"x": BadType()}, lambda: {"x": typing.Tuple[int, ...]}, lambda: {"x": typing.Dict[str, typing.Tuple[int, ...]], "y": int},
+                 lambda: {"y": int, "x": typing.List[typing.Tuple[str, ...]]}, lambda: {"x": typing.Optional[typing.Tuple[int, ...]]}]
+        at = kinds[(len(qualname) + payload) % len(kinds)]()
+        if (len(module) + payload) % 3 == 1:
+            return CallTrace(fn(module, qualname), {"ok": int}, at["x"], None)
+        if (len(module) + payload) % 3 == 2:
+            return CallTrace(fn(module, qualname), {"ok": int}, None, at["x"])
+        return CallTrace(fn(module, qualname), at, None, None)
     arg_types = {f"p{payload}": int}
     ret = [None, int, type(None)][payload % 3]
     return CallTrace(fn(module, qualname), arg_types, ret, None)
